@@ -34,7 +34,8 @@ TOK = ["aa", "Bb.", "a", "{% t %}", "{% /t %}", '{% t a="x y" %}', "{{ v }}", "{
        # appended later: a sentence end INSIDE the construct (semantic mode must not take it for a place to break)
        '{% t a="Xx yyyy. Zz" %}', "`code dddd eeee. Ff`", "[link kkkk mmmm. Nn](u)", "<!-- c dddd eeee. Ff -->", '<a title="Xxxx yyyy. Zz">',
        # appended later: constructs whose last character before the closing delimiter is a backslash or a delimiter look-alike
-       "`C:\\a b\\`", "[l k\\](u)", "[the [1] x](u)", '{% t a="b\\" %}']
+       "`C:\\a b\\`", "[l k\\](u)", "[the [1] x](u)", '{% t a="b\\" %}',
+       "[l](<../u v/w.md>)", '[l](http://u.v/w_(x) "t u")']
 REPS = [TOK.index(t) for t in ("aa", "Bb.", "{% t %}", "{% /t %}", "<!-- c -->", "`c d`", "[l k](u)", "{{ v }}")]
 ATOMIC = {i for i, t in enumerate(TOK) if i >= 3}
 _TAGS = {i for i, t in enumerate(TOK) if re.match(r"^(\{%|\{#|\{\{|<!--)", t)}
